@@ -519,6 +519,10 @@ class SchemaGen:
                 return inner
         if t.kind in ("opt", "none", "any"):
             return None, "None"
+        if t.kind == "tuplefix" and t.args and all(a.kind in ("int", "str", "bool", "float") for a in t.args):
+            inner = [self.simple_default(a) for a in t.args]     # immutable, so a plain default is legal
+            v = tuple(x[0] for x in inner)
+            return v, repr(v)
         if t.kind == "list":
             return "factory:list", "field(default_factory=list)"
         if t.kind == "dict":
